@@ -13,7 +13,18 @@ use simcore::rng::{self, Rng};
 use simcore::Fnv;
 
 const CLASS_NAMES: &[&str] = &["Alpha", "Beta", "Gamma", "AVeryLongProvidedClassName", "SixteenBytesClass", "Zed"];
-const COMMENTS: &[&str] = &["// note", "// a rather long trailing comment here", "/* block comment */", "/** doc comment that is long */"];
+const COMMENTS: &[&str] = &[
+  "// note",
+  "// a rather long trailing comment here",
+  "/* block comment */",
+  "/** doc comment that is long */",
+  // comments that span lines (positions after them depend on every line break being counted)
+  "/*\n * a boxed banner\n *\n * with an empty starred line\n */",
+  "/**\n * Documentation over several lines.\n *\n * Second paragraph.\n */",
+  "/* two\n   lines */",
+  "/****************\n * banner *\n ****************/",
+  "/**/",
+];
 
 fn provider_text(classes: &[String], private_one: bool) -> String {
   let mut s = String::new();
